@@ -679,11 +679,62 @@ func c02Custom(c *Ctx) {
 	c.Check(labelHas(g, "NE("+kd+fmt.Sprintf(",const:%q)", ti)), "custom/integrity", "effect-site gate: the override store is reachable only for type != integrity", w.InstrPos(ov),
 		"integrity can be overridden; guards: "+summarizeLabels(g, 10))
 	// skip only for revocation: cutting {type == revocation, action != skip} must disconnect the store
-	cut := fi.edgesMatching(func(l string, _ *ssa.If, _ bool) bool {
-		return l == "EQ("+kd+fmt.Sprintf(",const:%q)", tr) || l == "NE("+vd+fmt.Sprintf(",const:%q)", as)
-	})
-	reach := fi.reachHit(entryState(), cut, blocksOf(ov))
-	c.Check(len(cut) > 0 && !reach, "custom/skip-only-revocation", "effect-site gate (disjunctive): the override store is reachable only if type == revocation or action != skip", w.InstrPos(ov),
+	skipCut := func(ffi *FnInfo, kd, vd string) map[edgeKey]bool {
+		return ffi.edgesMatching(func(l string, _ *ssa.If, _ bool) bool {
+			one := func(a string) bool {
+				return a == "EQ("+kd+fmt.Sprintf(",const:%q)", tr) || a == "NE("+vd+fmt.Sprintf(",const:%q)", as)
+			}
+			if one(l) {
+				return true
+			}
+			// the value of `action == skip && type != revocation` tested as one condition: its false edge says one of the two
+			if op, alts := splitTopArgs(l); op == "OR" && len(alts) > 0 {
+				for _, a := range alts {
+					if !one(a) {
+						return false
+					}
+				}
+				return true
+			}
+			return false
+		})
+	}
+	cut := skipCut(fi, kd, vd)
+	okSkip := len(cut) > 0 && !fi.reachHit(entryState(), cut, blocksOf(ov))
+	if !okSkip {
+		// the pair (type, action) is resolved by an unexported helper whose success the store requires: the same disjunctive gate
+		// on the helper's own exits, for the values it hands back
+		ke, kok := ov.Key.(*ssa.Extract)
+		ve, vok := ov.Value.(*ssa.Extract)
+		if kok && vok && ke.Tuple == ve.Tuple {
+			if call, ok := ke.Tuple.(*ssa.Call); ok && labelHas(g, "EQ("+descTailErr(call)+",nil)") {
+				if H := staticCallee(call); H != nil && H.Blocks != nil && w.IsProductFn(H) {
+					hfi := w.Info(H)
+					c.SeenFn(H.String())
+					hs := w.Summarize(H, Mode{Kind: mErr})
+					okSkip = len(hs.Exits) > 0
+					hcut := map[edgeKey]bool{}
+					for _, ex := range hs.Exits {
+						if ke.Index >= len(ex.Ret.Results) || ve.Index >= len(ex.Ret.Results) {
+							okSkip = false
+							continue
+						}
+						ec := skipCut(hfi, desc(ex.Ret.Results[ke.Index]), desc(ex.Ret.Results[ve.Index]))
+						if len(ec) == 0 {
+							okSkip = false
+						}
+						for e := range ec {
+							hcut[e] = true
+						}
+					}
+					if okSkip && hfi.successWitness(Mode{Kind: mErr}, entryState(), hcut) != nil {
+						okSkip = false
+					}
+				}
+			}
+		}
+	}
+	c.Check(okSkip, "custom/skip-only-revocation", "effect-site gate (disjunctive): the override store is reachable only if type == revocation or action != skip", w.InstrPos(ov),
 		"an override to skip can be stored for a type other than revocation")
 	// base level skip cannot be customised; empty override returns the base level
 	s := w.Summarize(fn, Mode{Kind: mErr})
